@@ -163,8 +163,10 @@ class ImageTransformer(SpatialTransformer):
         self._sample = sampler.to(device)
         self._target_grid = target
         self._flip_coords = bool(flip_coords)
-        x = target.coords(align_corners=transform.align_corners(), flip=flip_coords, device=device)
+        x = target.coords(align_corners=transform.align_corners(), device=device)
         x = target.transform_points(x, axes=transform.axes(), to_grid=transform.grid())
+        if flip_coords:
+            x = x.flip(-1)
         self.register_buffer("grid_coords", x.unsqueeze(0), persistent=False)
 
     @property
